@@ -43,8 +43,13 @@ type GuardRule struct {
 	Name  string
 	Tags  []string
 	Comps map[string]bool
-	Elem  bool // applies to element stores into arrays whose provenance is one of Comps
+	Elem  bool            // applies to element stores into arrays whose provenance is one of Comps
+	Funcs map[string]bool // when non-empty: only stores inside these functions
 	Expr  *SX
+}
+
+func (g *GuardRule) appliesIn(fn string) bool {
+	return len(g.Funcs) == 0 || g.Funcs[fn]
 }
 
 func relFuncName(fn *ssa.Function, pkg *ssa.Package) string {
